@@ -167,7 +167,7 @@ def _succ_hint(i):
 for _rel, _K, _req in (("happysimulator/components/rate_limiter/rate_limited_entity.py", "RateLimitedEntity", "_handle_request"),
                        ("happysimulator/components/rate_limiter/inductor.py", "Inductor", "_handle_arrival")):
     ghost(_rel, f"{_K}.{_req}", "return self._forward(event, now)", "self.g_accepted.append(event)", where="before")
-    ghost(_rel, f"{_K}.{_req}", "self._queued += 1", "self.g_accepted.append(event)")
+    ghost(_rel, f"{_K}.{_req}", "self._queued += 1", "self.g_accepted.append(event)", where="after*")
     ghost(_rel, f"{_K}._forward", "self._forwarded += 1", "self.g_forwarded.append(event)")
     ghost(_rel, f"{_K}._ensure_poll_scheduled", "self._poll_scheduled = True", "self.g_polls += 1")
     ghost(_rel, f"{_K}._handle_poll", "self._poll_scheduled = False", "self.g_polls -= 1")
@@ -754,7 +754,10 @@ def _request_result(prefix):
         if len(r) != 1:
             return False
         e = r[0]
-        return ite_b(fwd == 1, is_forward_of(e, s.event, s, o._downstream),
+        # the admission goes to the oldest waiting request: the arrival itself only when nothing is buffered
+        oldq = s.old(s.self._queue)._queue
+        src = s.event if _truthy(slen(oldq) == 0) else oldq[0]
+        return ite_b(fwd == 1, is_forward_of(e, src, s, o._downstream),
                      is_poll(e, s, prefix) & (slen(o._queue._queue) == slen(s.old(s.self._queue)._queue) + 1))
     return post
 
